@@ -11,7 +11,7 @@ t0 = time.time()
 p = subprocess.Popen(["/verif/target/%s/mcw" % ("release" if profile == "release" else profile)] + args, stdout=subprocess.DEVNULL, stderr=subprocess.PIPE, env=env, pass_fds=(w,))
 os.close(w)
 data = os.fdopen(r, "rb").read()
-err = p.stderr.read().decode()
+err = p.stderr.read().decode(errors="replace")
 p.wait()
 print("rc", p.returncode, "wall %.1fs" % (time.time() - t0))
 if err.strip(): print("STDERR:", err[-2000:])
